@@ -559,7 +559,11 @@ def execute(scn, ctx):
         nb = int(cfg["nb_samples"])
         if not res["ok"]:
             if not control_fault:
-                bad("raises", f"{kind}({mname}) raised {type(res['value']).__name__}: {res['value']}")
+                # F11 as an exception: a NaN row (planned callback_nan) cannot be stored in a result array that took an
+                # integer dtype from the metric of the original object
+                f11 = ("callback_nan" in fired and not named and isinstance(res["value"], ValueError)
+                       and "cannot convert float NaN to integer" in str(res["value"]))
+                bad("raises", f"{kind}({mname}) raised {type(res['value']).__name__}: {res['value']}", {"f11_signature": True} if f11 else None)
         else:
             value = res["value"]
             # ---- what did the callbacks see?
@@ -697,6 +701,10 @@ def execute(scn, ctx):
                         th = np.asarray(est, dtype=float)
                         probe("ci_checked")
                         method = cfg["bootstrap_method"]
+                        # NumPy interpolates between the order statistics of a float32 / float16 replicate array in that
+                        # precision: the formula is then only defined to that precision
+                        widths = [np.asarray(v_).dtype.itemsize for v_ in list(reps) + [est] if np.asarray(v_).dtype.kind == "f"]
+                        tol_ci = 1e-9 if not widths or min(widths) >= 8 else 4e-6 if min(widths) == 4 else 4e-3
                         exp = None
                         for cand in est_all or [est]:
                             if isinstance(cand, BaseException):
@@ -706,9 +714,9 @@ def execute(scn, ctx):
                                 exp = np.stack([M.ref_ci(theta, th, a, method) for a in alpha], axis=-2)
                             else:
                                 exp = M.ref_ci(theta, th, alpha, method)
-                            if M.close(ci, exp, 1e-9):
+                            if M.close(ci, exp, tol_ci):
                                 break
-                        if exp is not None and not M.close(ci, exp, 1e-9):
+                        if exp is not None and not M.close(ci, exp, tol_ci):
                             f11 = False
                             if est is not None and any(not np.can_cast(np.asarray(r).dtype, np.asarray(est).dtype, "safe") for r in reps):
                                 # F11 again, seen through bootstrap_ci: the interval is the formula's on the truncated replicates
@@ -716,7 +724,9 @@ def execute(scn, ctx):
                                 theta_t = np.stack([np.asarray(r).astype(np.asarray(est).dtype).astype(float) for r in reps], axis=0)
                                 exp_t = (np.stack([M.ref_ci(theta_t, th_t, a, method) for a in alpha], axis=-2) if isinstance(alpha, list)
                                          else M.ref_ci(theta_t, th_t, alpha, method))
-                                f11 = M.close(ci, exp_t, 1e-9)
+                                # (NumPy interpolates the order statistics of a float32 / float16 array in that precision)
+                                isz = np.asarray(est).dtype.itemsize if np.asarray(est).dtype.kind == "f" else 8
+                                f11 = M.close(ci, exp_t, 1e-9 if isz >= 8 else 4e-6 if isz == 4 else 4e-3)
                             bad("ci_formula", f"bootstrap_ci = {ci.tolist()} but the {method} formula on the recorded replicates with the source metric as estimate gives {exp.tolist()}",
                                 {"f11_signature": True} if f11 else None)
                         if method != "quantile" and theta.size:
